@@ -75,6 +75,8 @@ M = [
  ('vert-unpack',    'convolution/vertical_u8/sse4.rs', 'let source = _mm_unpacklo_epi8(source1, source2);\n            let pix = _mm_unpacklo_epi8(source, _mm_setzero_si128());\n            sss0 =', 'let source = _mm_unpackhi_epi8(source1, source2);\n            let pix = _mm_unpacklo_epi8(source, _mm_setzero_si128());\n            sss0 =', ['C02']),
  ('avx2-mask-sh2',  'convolution/u8x4/avx2.rs', '        11, 10, 9, 8, 11, 10, 9, 8, 11, 10, 9, 8, 11, 10, 9, 8,\n        3, 2, 1, 0, 3, 2, 1, 0, 3, 2, 1, 0, 3, 2, 1, 0,', '        11, 10, 9, 8, 11, 10, 9, 8, 11, 10, 9, 8, 11, 10, 9, 8,\n        7, 6, 5, 4, 3, 2, 1, 0, 3, 2, 1, 0, 3, 2, 1, 0,', ['C02']),
  ('avx2-half-init', 'convolution/u8x4/avx2.rs', '_mm256_set1_epi32(1 << (PRECISION - 2));', '_mm256_set1_epi32(1 << (PRECISION - 1));', ['C02']),
+ ('u8x3-maxx',      'convolution/u8x3/sse4.rs', 'let max_x = src_width.saturating_sub(5);\n        if x < max_x {\n            let coeffs_by_4 = coeffs.chunks_exact(4);\n            for k in coeffs_by_4 {\n                let ksource = simd_utils::loadl_epi64(k, 0);\n                let source = simd_utils::loadu_si128(src_row, x);\n\n                let pix = _mm_shuffle_epi8(source, pix_sh1);', 'let max_x = src_width.saturating_sub(4);\n        if x < max_x {\n            let coeffs_by_4 = coeffs.chunks_exact(4);\n            for k in coeffs_by_4 {\n                let ksource = simd_utils::loadl_epi64(k, 0);\n                let source = simd_utils::loadu_si128(src_row, x);\n\n                let pix = _mm_shuffle_epi8(source, pix_sh1);', ['C02', 'C03']),
+ ('u8x3-mask',      'convolution/u8x3/sse4.rs', '-1, -1, -1, -1, -1, 11, -1, 8, -1, 10, -1, 7, -1, 9, -1, 6,', '-1, -1, -1, -1, -1, 11, -1, 8, -1, 10, -1, 7, -1, 9, -1, 5,', ['C02']),
  ('alpha-list',     'mul_div.rs', 'PixelType::U8x2\n', 'PixelType::U8x3\n', ['C06', 'C07']),
 ]
 
